@@ -51,6 +51,8 @@ func minimise(b *fsbox, cs Case, class string) Case {
 		switch x.EP {
 		case "extract":
 			x.Layout = "absent"
+		case "install":
+			x.Layout = "empty"
 		default:
 			x.Layout = "empty"
 		}
@@ -74,7 +76,7 @@ func minimise(b *fsbox, cs Case, class string) Case {
 	if cur.Mgr != nil {
 		for _, mod := range []func(*MgrCase){
 			func(m *MgrCase) { m.Skip = true }, func(m *MgrCase) { m.Abs = false }, func(m *MgrCase) { m.Op = "update" },
-			func(m *MgrCase) { m.Plant = "sym-secret" },
+			func(m *MgrCase) { m.Ignore = false }, func(m *MgrCase) { m.Plant = "sym-secret" },
 		} {
 			x := cur
 			m := *cur.Mgr
@@ -92,8 +94,22 @@ func minimise(b *fsbox, cs Case, class string) Case {
 			try(x)
 		}
 	}
+	// long entry lists: halve first
+	for len(cur.Entries) > 12 {
+		h := len(cur.Entries) / 2
+		a, b2 := cur, cur
+		a.Entries = append([]Entry{}, cur.Entries[:h]...)
+		b2.Entries = append([]Entry{}, cur.Entries[h:]...)
+		if fails(a) {
+			cur = a
+		} else if fails(b2) {
+			cur = b2
+		} else {
+			break
+		}
+	}
 	// drop non-baseline entries one at a time (from the end), then baseline ones for the in-memory loaders
-	for i := len(cur.Entries) - 1; i >= 0 && len(cur.Entries) > 1; i-- {
+	for i := len(cur.Entries) - 1; i >= 0 && len(cur.Entries) > 1 && len(cur.Entries) <= 64; i-- {
 		if i >= len(cur.Entries) {
 			continue
 		}
